@@ -2,7 +2,7 @@
    PARTIAL: the theorems are about the model (reference semantics L1 and chunk-stream operators L2 of Model.v);
    the repository's operators are tied to it by the black-box correspondence only (props/C08/NOTES.md). *)
 From Coq Require Import ZArith List Bool Permutation Sorted.
-From OG Require Import C08.Model C08.Proofs C08.Pipe C08.DescMerge C08.PipeProofs C08.Rpn C08.Prune C08.Window.
+From OG Require Import C08.Model C08.Proofs C08.Pipe C08.DescMerge C08.PipeProofs C08.Rpn C08.Prune C08.Window C08.WindowPart.
 Import ListNotations.
 
 (* Every operator that is a state machine over rows gives the same output and final state for every cut of its
@@ -325,3 +325,27 @@ Theorem C08_window_contains : forall t d off, (0 < d)%Z -> (min_time <= t - off 
   let (s, e) := window t d off in (s <= t)%Z /\ ((t < e)%Z \/ e = (max_time + off)%Z).
 Proof. exact window_contains. Qed.
 Print Assumptions C08_window_contains.
+
+(* the buckets PARTITION the time line (WindowPart.v): every time of a window has that window, different windows are
+   disjoint, the bucket function is monotone in t, a window's start is its own window and its end starts the next one *)
+Theorem C08_window_constant_on_bucket : forall t t' d off, (0 < d)%Z -> in_range t d off -> in_range t' d off ->
+  (fst (window t d off) <= t' < snd (window t d off))%Z -> window t' d off = window t d off.
+Proof. exact window_constant_on_bucket. Qed.
+Print Assumptions C08_window_constant_on_bucket.
+Theorem C08_window_disjoint : forall t1 t2 d off, (0 < d)%Z -> in_range t1 d off -> in_range t2 d off ->
+  window t1 d off <> window t2 d off ->
+  (snd (window t1 d off) <= fst (window t2 d off))%Z \/ (snd (window t2 d off) <= fst (window t1 d off))%Z.
+Proof. exact window_disjoint. Qed.
+Print Assumptions C08_window_disjoint.
+Theorem C08_window_monotone : forall t1 t2 d off, (0 < d)%Z -> in_range t1 d off -> in_range t2 d off -> (t1 <= t2)%Z ->
+  (fst (window t1 d off) <= fst (window t2 d off))%Z.
+Proof. exact window_monotone. Qed.
+Print Assumptions C08_window_monotone.
+Theorem C08_window_start_fixed : forall t d off, (0 < d)%Z -> in_range t d off ->
+  window (fst (window t d off)) d off = window t d off.
+Proof. exact window_start_fixed. Qed.
+Print Assumptions C08_window_start_fixed.
+Theorem C08_window_next : forall t d off, (0 < d)%Z -> in_range t d off -> in_range (snd (window t d off)) d off ->
+  window (snd (window t d off)) d off = (snd (window t d off), (snd (window t d off) + d)%Z).
+Proof. exact window_next. Qed.
+Print Assumptions C08_window_next.
